@@ -761,6 +761,14 @@ def mc1(proj, rep, modules):
                                     for s2 in ast.walk(sc):
                                         if isinstance(s2, ast.Assign) and any(isinstance(t2, ast.Name) and t2.id == x.id for t2 in s2.targets):
                                             out |= roots(s2.value, seen, depth + 1)
+                                            # control dependence: a definition that only happens under `if <test>` depends on the test as well
+                                            # (the guard `key not in CACHE` itself is not an input of the value)
+                                            cur2 = s2
+                                            while hasattr(cur2, '_parent') and cur2._parent is not sc:
+                                                cur2 = cur2._parent
+                                                if isinstance(cur2, ast.If) and not any(isinstance(y, ast.Name) and y.id in glob for y in ast.walk(cur2.test)) \
+                                                        and not any(isinstance(y, ast.Constant) and y.value is None for y in ast.walk(cur2.test)):
+                                                    out |= roots(cur2.test, seen, depth + 1)
                     return out
                 kr = roots(st.targets[0].slice)
                 vr = roots(st.value)
